@@ -762,7 +762,7 @@ Local Hint Resolve gpres_dispatch : gdb.
 Lemma gpres_on_message c msg o : gpres (fun _ => True) (on_message cfg c msg o).
 Proof. unfold on_message. repeat gpres_step. Qed.
 
-Lemma gpres_on_open c : gpres (fun _ => True) (on_open c).
+Lemma gpres_on_open c : gpres (fun _ => True) (on_open cfg c).
 Proof. unfold on_open. repeat gpres_step. Qed.
 
 Lemma gpres_on_close c : gpres (fun _ => True) (on_close c).
@@ -803,8 +803,8 @@ Proof.
   - destruct (has_conn c s); [apply Hfin; exact Hs|]. cbv zeta.
     assert (Hs1 : GI (now s) (set_conns s (conns s ++ [(c, new_conn)])))
       by (eapply GI_ext; [..|exact Hs]; reflexivity).
-    pose proof (run_m_GI (now s) (on_open c) _ (gpres_on_open (now s) c) Hs1) as H.
-    destruct (run_m (on_open c) (set_conns s (conns s ++ [(c, new_conn)]))) as [s2 x].
+    pose proof (run_m_GI (now s) (on_open cfg c) _ (gpres_on_open cfg (now s) c) Hs1) as H.
+    destruct (run_m (on_open cfg c) (set_conns s (conns s ++ [(c, new_conn)]))) as [s2 x].
     cbn [fst] in *. apply Hfin; exact H.
   - destruct (has_conn c s); [|apply Hfin; exact Hs].
     pose proof (gpres_elim (now s) _ _ s (gpres_on_message cfg (now s) Hv c cmd o) Hs) as H.
@@ -1139,7 +1139,7 @@ Proof.
   destruct HS as [Hdb [Hcw Hcu] _ _ _ _].
   unfold erroneous in Herr. rewrite Ht, Hb in Herr.
   rewrite (step_cmd cfg s c msg o TAllocate cs Hlk Ht).
-  set (s1 := set_log s [LFrame c (FAck (m_id msg)) (is_clean s)]).
+  set (s1 := set_log s [LFrame c (FAck (m_id msg)) (is_clean s) (now s)]).
   assert (Hco : conn_of s1 c = cs) by (unfold conn_of; cbn; rewrite Hlk; reflexivity).
   rewrite (dispatch_bound cfg c TAllocate msg o s1 a side); try discriminate;
     [|rewrite Hco; exact Hb].
@@ -1150,7 +1150,7 @@ Proof.
       pose proof (open_body_has d1 a mbox side (now s) Hmb1) as Eob.
       pose proof (handle_allocate_ok_wp c a side o n0 s1 cs npid mbox d1 _ Hlk Herr Ef Ecb Eob) as W.
       apply wp_elim in W.
-      destruct W as [([] & s' & E & Hw & Hc & Hs & b & Hl)|(e & s' & E & -> & ->)]; rewrite E.
+      destruct W as [([] & s' & E & Hw & Hc & Hs & b & tx & Hl)|(e & s' & E & -> & ->)]; rewrite E.
       * cbn [o_log chan_w chan_c set_log now fst]. rewrite Hl.
         cbn [rev app log s1 set_log frames_of]. 
         intros Hnow [Hin|[Hin|[]]]; [discriminate|]. inversion Hin; subst n0.
@@ -1431,7 +1431,7 @@ Lemma on_message_new_stamp c msg o s :
   new_sub_stamped s (out (on_message cfg c msg o s)).
 Proof.
   intros Hinv Hheld. unfold on_message, try_catch. destruct (m_type msg) as [t|].
-  - set (s0 := set_log s (LFrame c (FAck (m_id msg)) (is_clean s) :: log s)).
+  - set (s0 := set_log s (LFrame c (FAck (m_id msg)) (is_clean s) (now s) :: log s)).
     rewrite (bind_ok _ _ s tt s0) by reflexivity.
     pose proof (dispatch_new_stamp c t msg o s0 Hinv Hheld) as H.
     destruct (dispatch cfg c t msg o s0) as [u s1|e s1]; cbn [out] in H; [exact H|].
@@ -1466,8 +1466,8 @@ Proof.
     destruct (has_conn c (set_log s [])); [split; reflexivity|]. cbv zeta.
     assert (H1 : TF (now s) (next_due s) (set_conns (set_log s []) (conns (set_log s []) ++ [(c, new_conn)])))
       by (split; reflexivity).
-    pose proof (run_m_TF (now s) (next_due s) _ _ (fpres_on_open _ _ c) H1) as H.
-    destruct (run_m (on_open c) _) as [s2 x]. exact H.
+    pose proof (run_m_TF (now s) (next_due s) _ _ (fpres_on_open cfg _ _ c) H1) as H.
+    destruct (run_m (on_open cfg c) _) as [s2 x]. exact H.
   - apply cmd_clock.
   - unfold step. cbv zeta. cbn [step_b].
     destruct (has_conn c (set_log s [])); [|split; reflexivity].
@@ -1711,7 +1711,7 @@ Print Assumptions C12_opened_within_exp_survives.
 (* ====================================================================== *)
 
 (** expiration 11, period 5 (the repository's ratio: 11 min / 5 min) *)
-Definition ex_cfg : config := mkCfg true true None 11 5.
+Definition ex_cfg : config := mkCfg true true None 11 5 (mkWelcome None None None).
 Definition ex_open (m : string) : command :=
   mkCmd (Some TOpen) None None None None (Some m) None None None None None.
 Definition ex_add : command :=
